@@ -351,7 +351,7 @@ Proof.
     apply Forall_forall. intros e He. apply in_map_iff in He as (x & <- & Hx). cbn [snd].
     rewrite Forall_forall in Hne. apply geom_of_polys_some. now apply Hne.
   - intros Hwf. destruct (merge_parts_ok ts 0%Z parts Hwf) as [(H1 & H2 & H3) _].
-    unfold pend_ok. rewrite keys_map_pend. repeat split; [assumption | assumption |].
+    unfold pend_ok. rewrite (keys_map_pend (fun ps => Some (GMulti ps))). repeat split; [assumption | assumption |].
     apply Forall_forall. intros e He. apply in_map_iff in He as (x & <- & Hx). cbn [snd]. discriminate.
   - intros _. unfold pend_ok. rewrite map_map. cbn [fst]. rewrite map_id.
     repeat split; [assumption | apply incl_refl |].
@@ -368,7 +368,7 @@ Proof.
     destruct (memz i (map fst o)) eqn:E; [reflexivity|].
     apply memz_false in E. rewrite (lookup_notin i o E). reflexivity.
   - destruct (merge_parts_ok ts i parts Hwf) as [(H1 & H2 & H3) Hl].
-    rewrite pend_msgs_map by assumption. rewrite Hl.
+    rewrite (pend_msgs_map (f_id f) i (fun ps => Some (GMulti ps))) by assumption. rewrite Hl.
     destruct (memz i (map fst (merge_parts parts))) eqn:E.
     + (* the key exists: its list is not empty *)
       apply memz_In in E. apply in_map_iff in E as ([k ps] & Hk & He). cbn [fst] in Hk. subst k.
@@ -417,12 +417,15 @@ Lemma take_key_ok : forall ts tm l og l', take_key tm l = Some (og, l') -> pend_
   pend_ok ts l' /\ In tm ts /\ og <> None.
 Proof.
   intros ts tm l og l' H (H1 & H2 & H3). destruct (take_key_split _ _ _ _ H) as (a & b & -> & -> & _).
-  rewrite map_app in *. cbn [map fst] in *. repeat split.
-  - apply NoDup_remove_1 in H1. exact H1.
-  - intros x Hx. apply H2. rewrite in_app_iff in *. cbn [In]. tauto.
-  - rewrite Forall_app in *. destruct H3 as [Ha Hb]. inversion Hb; subst. split; assumption.
+  rewrite map_app in H1, H2. cbn [map fst] in H1, H2.
+  apply Forall_app in H3 as [Ha Hb]. inversion Hb as [|? ? Hog Hb']; subst. cbn [snd] in Hog.
+  split; [|split].
+  - split; [|split].
+    + rewrite map_app. apply NoDup_remove_1 in H1. exact H1.
+    + rewrite map_app. intros x Hx. apply H2. rewrite in_app_iff in *. cbn [In]. tauto.
+    + apply Forall_app. split; assumption.
   - apply H2. rewrite in_app_iff. cbn [In]. tauto.
-  - rewrite Forall_app in H3. destruct H3 as [_ Hb]. inversion Hb; subst. assumption.
+  - exact Hog.
 Qed.
 
 Lemma pend_msgs_app : forall id i a b, pend_msgs id i (a ++ b) = pend_msgs id i a ++ pend_msgs id i b.
